@@ -325,29 +325,29 @@ type ReplayFile struct {
 }
 
 type Summary struct {
-	StoppedEarly string       `json:"stopped_early,omitempty"`
-	Check      string         `json:"check"`
-	Tier       string         `json:"tier"`
-	BaseSeed   int64          `json:"base_seed"`
-	Runs       int            `json:"runs"`
-	RunSeeds   []uint64       `json:"run_seeds_sample"`
-	Steps      int            `json:"steps"`
-	SimMicros  int64          `json:"sim_micros"`
-	WallS      float64        `json:"wall_s"`
-	Probes     map[string]int `json:"probes"`
-	ProbeRuns  map[string]int `json:"probe_runs"`
-	Faults     map[string]int `json:"faults"`
-	Sigs       []uint64       `json:"sigs"`
-	Nontrivial []uint64       `json:"nontrivial_plan_hashes"`
-	KnownHits  map[string]int `json:"known_hits"`
-	Samples    []*Plan        `json:"samples"`
-	Violation  *Violation     `json:"violation,omitempty"`
-	Replay     string         `json:"replay,omitempty"`
-	Harness    string         `json:"harness,omitempty"`
-	ShrinkRuns int            `json:"shrink_runs"`
-	Real       []string       `json:"real"`
-	Stub       []string       `json:"stub"`
-	OtherProps map[string]int `json:"other_prop_violations"`
+	StoppedEarly string         `json:"stopped_early,omitempty"`
+	Check        string         `json:"check"`
+	Tier         string         `json:"tier"`
+	BaseSeed     int64          `json:"base_seed"`
+	Runs         int            `json:"runs"`
+	RunSeeds     []uint64       `json:"run_seeds_sample"`
+	Steps        int            `json:"steps"`
+	SimMicros    int64          `json:"sim_micros"`
+	WallS        float64        `json:"wall_s"`
+	Probes       map[string]int `json:"probes"`
+	ProbeRuns    map[string]int `json:"probe_runs"`
+	Faults       map[string]int `json:"faults"`
+	Sigs         []uint64       `json:"sigs"`
+	Nontrivial   []uint64       `json:"nontrivial_plan_hashes"`
+	KnownHits    map[string]int `json:"known_hits"`
+	Samples      []*Plan        `json:"samples"`
+	Violation    *Violation     `json:"violation,omitempty"`
+	Replay       string         `json:"replay,omitempty"`
+	Harness      string         `json:"harness,omitempty"`
+	ShrinkRuns   int            `json:"shrink_runs"`
+	Real         []string       `json:"real"`
+	Stub         []string       `json:"stub"`
+	OtherProps   map[string]int `json:"other_prop_violations"`
 }
 
 func envInt(name string, def int64) int64 {
